@@ -951,6 +951,11 @@ fn walk(p: &Prog, cands: &[Cand], cfg: &ExploreCfg, shared: &Mutex<Shared>, star
             Err(SessErr::Crashed { status, stderr }) => {
                 let first = stderr.lines().find(|l| l.contains("panicked")).unwrap_or(stderr.lines().last().unwrap_or("")).to_string();
                 let class = if crosses_exit(p, &m, &a) { ":step-range-contains-process-exit" } else { "" };
+                if !class.is_empty() && cfg.prop != "C03" {
+                    // triaged: this crash belongs to C03 (recorded there); it says nothing about this property
+                    g.outcomes.insert("crash attributed to C03".into());
+                    return;
+                }
                 g.findings.push((Finding { sig: format!("{}:debugger-crashed{class}", cfg.prop), detail: format!("[{}] {:?}: worker {status}: {first}", p.name(), path.iter().map(|a| a.label(cands)).collect::<Vec<_>>()) }, replay_of(&path)));
                 return;
             }
